@@ -76,6 +76,8 @@ func init() {
 	register("C05", func(args []string) int {
 		run := evid.NewRun("C05", "model_checking")
 		res := runMgr(run, c05Sys(run.Thorough()), 600)
+		// many endpoints on one node, told to peers in full (seq_c05_bulk.go)
+		run.Set("bulk_cases", c05Bulk(run))
 		bound := 2
 		if run.Thorough() {
 			bound = 3
